@@ -1,5 +1,7 @@
 package core
 
+import "sort"
+
 // Ev is one record of the run history. Fields are numeric (plus one optional
 // string) so that a record can be stored with plain stores from any task.
 type Ev struct {
@@ -28,6 +30,7 @@ type Hist struct {
 	// yield, so the recording task is identified by its goroutine (who).
 	hazard bool
 	who    func() int
+	sorted bool
 }
 
 func NewHist(capacity int) *Hist { return &Hist{evs: make([]Ev, capacity), curTask: -1} }
@@ -40,6 +43,7 @@ func (h *Hist) Reset() {
 	h.curStep = 0
 	h.hazard = false
 	h.who = nil
+	h.sorted = false
 }
 
 // Rec appends an event, stamping the current task and step.
@@ -87,10 +91,27 @@ func (h *Hist) Len() int { return h.n }
 //go:norace
 func (h *Hist) Overflow() bool { return h.overflow }
 
-// Events returns the recorded prefix. Call only when no task is running.
+// Events returns the recorded prefix in canonical order. Call only when no
+// task is running. Within one scheduler step normally a single task records;
+// after a lock hand-over the released waiter may record beside the releasing
+// task, and which of the two the Go runtime lets run first depends on real
+// time (sync.Mutex starvation mode). Their records are concurrent, so the
+// canonical order groups them by task inside the step (per-task order kept).
 //
 //go:norace
-func (h *Hist) Events() []Ev { return h.evs[:h.n] }
+func (h *Hist) Events() []Ev {
+	evs := h.evs[:h.n]
+	if h.hazard && !h.sorted {
+		sort.SliceStable(evs, func(a, b int) bool {
+			if evs[a].Step != evs[b].Step {
+				return evs[a].Step < evs[b].Step
+			}
+			return evs[a].Task < evs[b].Task
+		})
+		h.sorted = true
+	}
+	return evs
+}
 
 // Hash64 is FNV-1a over the canonical history (kinds, tasks, numbers, text).
 func (h *Hist) Hash64() uint64 {
